@@ -43,6 +43,10 @@ def check(F, rep, tier):
     normal_form(F, rep)
     parsers.numeric_classification(F, rep, "R09.4b", MODULE, ("LocalSegment",), floor=0)
     parsers.check_parity(F, rep, "R09.8", "PEP440", ANCHOR)
+    # a numeric local part beyond u32 is kept as text through LocalSegment::try_new_str, whose normal form (no leading zeros) is the
+    # sanitiser's zero-stripping: the normal-form clause depends on it
+    if any((mir.callee(t) or "").endswith("LocalSegment::try_new_str") for g in F.fns.values() if g.path.startswith(MODULE) for bi, t in g.calls()):
+        core.borrow(F, rep, "c16", "C16", "R09.7", ("zeros-not-stripped", "zero-strip"), "text local segments are normalised by the sanitiser's leading-zero removal")
     return core.finish(rep, explanation=EXPL, assumptions=ASSUME, trusted=TRUST)
 
 # ---------------------------------------------------------------------------
